@@ -893,6 +893,7 @@ SPECS["C13"]["theorems"] += [
     "Woodpile.Props.C13.ra_own_update_visible",
     "Woodpile.Props.C13.ra_sync_order",
     "Woodpile.Props.C13.ra_synced_update_visible",
+    "Woodpile.Props.C13.call_arguments_fixed",
 ]
 SPECS["C18"]["theorems"] += [
     "Woodpile.Props.C18.sc_retry_only_on_publish_during",
@@ -928,3 +929,9 @@ SPECS["C19"]["level_text"] += (' Track abt2: the cell of the model is no longer 
     'from a state whose writer mutex is free and unpoisoned (seq_update_refines, seq_snapshot_refines, init_cells_agree, chkNat_is_chkReal); try_update '
     'differs from update only on a poisoned mutex (try_update_differs_only_when_poisoned), which no_panic keeps unreachable. nfs_voucher.rs has NO '
     'module-wide mutex: the C19 theorems cover sequential histories only; for concurrent callers only C13/C18 on the cell carry over.')
+# C19's cell is, by C19.seq_update_refines / seq_snapshot_refines, the AtomicBaseTime programs of C13/C18 run alone; those programs
+# are tied to vouched_time/src/atomic_base_time.rs (a C19 anchor: "monotonic filter in the atomic cell") by the H3 trace validation
+# of family `abt`, so the C19 check runs that family too (a changed stale test in advance_once - e.g. `update.0 + 1 < current` -
+# moves the NFS base time backwards by 1 ms only for a file exactly 1 ms older than the base, which the real-file family `nfs`
+# almost never presents; found as a missed mutation by track abt2).
+SPECS["C19"]["families"] += [dict(name="abt", quick=600, thorough=20000)]
